@@ -178,6 +178,7 @@ def run(tier, seed, replay=None):
         "multi-directory projects in which the same relative dependency string occurs in several COND files" % (ALPHA, depth, ALPHA2, 4 if tier == "quick" else 5)
     )
     relative_resolution(chk)
+    equal_identifiers_are_one_key(chk)
     names_in_declarations(chk, tier)
     identifiers_on_the_command_line(chk, tier)
     where_from_inside_a_task(chk)
@@ -256,6 +257,52 @@ def names_in_declarations(chk, tier):
             if accepted is not want:
                 chk.violation("impl-violation", "%s declared with name %r was %s, the documented grammar %s it" % (form, nm, "accepted" if accepted is True else ("rejected" if accepted is False else accepted), "accepts" if want else "rejects"),
                               {"input": {"part": "declared-names", "form": form, "string": nm}, "impl_observation": accepted, "oracle_verdict": want}, match_key={"declared": form}, size=len(nm))
+
+
+def equal_identifiers_are_one_key(chk):
+    """"an identifier has one canonical form": every spelling of an identifier (optional //, a slash after the package
+    path, doubled spellings through from_relative_str / relative_with_name) gives objects that are equal, print alike,
+    HASH alike and find each other in dictionaries and sets -- the loader's visited sets, the planner's tables and the
+    version look-ups are keyed by these objects; and identifiers that differ are different keys.  (Seed C01/j cached the
+    hash of the spelling.)"""
+    import pathlib
+    from conductor.task_identifier import TaskIdentifier
+
+    groups = {
+        ("", "t"): ["//:t", ":t"],
+        ("data", "prep"): ["//data:prep", "//data/:prep", "data:prep", "data/:prep"],
+        ("a/b", "n-1"): ["//a/b:n-1", "//a/b/:n-1", "a/b:n-1", "a/b/:n-1"],
+        ("a", "b"): ["//a:b", "a/:b"],
+        ("A", "b"): ["//A:b"],
+        ("a", "B"): ["//a:B"],
+        ("a_b", "c"): ["//a_b:c"],
+        ("a-b", "c"): ["//a-b:c"],
+    }
+    objs = []
+    for (path, name), spellings in groups.items():
+        for sp in spellings:
+            objs.append(((path, name), sp, TaskIdentifier.from_str(sp, require_prefix=False)))
+        objs.append(((path, name), "relative :%s in %r" % (name, path), TaskIdentifier.from_relative_str(":" + name, pathlib.Path(path))))
+        objs.append(((path, name), "relative_with_name", TaskIdentifier.from_str("//%s:zz" % path).relative_with_name(name)))
+        objs.append(((path, name), "constructor", TaskIdentifier(pathlib.Path(path), name)))
+    for i, (ka, sa, a) in enumerate(objs):
+        for kb, sb, b in objs[i:]:
+            chk.coverage["evaluations"] += 1
+            same = ka == kb
+            table, members = {a: sa}, {a}
+            msg = None
+            if (a == b) != same:
+                msg = "== says %s" % (a == b)
+            elif same and (hash(a) != hash(b) or repr(a) != repr(b) or str(a) != str(b)):
+                msg = "they are equal but hash / print differently (%r vs %r)" % (repr(a), repr(b))
+            elif same and (table.get(b) != sa or b not in members):
+                msg = "they are equal but one does not find the other in a dict / set"
+            elif not same and (b in members or b in table):
+                msg = "they differ but one is found under the other's key"
+            if msg:
+                chk.violation("impl-violation", "TaskIdentifier %s (%r) and %s (%r): %s" % (sa, ka, sb, kb, msg),
+                              {"input": {"part": "one-key", "a": sa, "b": sb}, "impl_observation": msg}, match_key={"part": "one-key"}, size=2)
+    chk.count("one-key", "pairs", len(objs) * (len(objs) + 1) // 2)
 
 
 def identifiers_on_the_command_line(chk, tier):
